@@ -122,33 +122,48 @@ def h(t, part):
             nstable['*'] = 'clsstar'
             obj.register_namespace(mkns('clsstar', '*', nsbase))
 
-    ret = drv.call(obj._trigger_event(event, ns, *args))
-    drv.finish()
-
-    exp_tag, exp_args = ref_resolve(table, nstable, reserved, event, ns, args)
-    t.reached('resolved')
-    t.note(cname, event, ns, bits, unrelated, exp_tag)
-    if exp_tag is None:
-        if calls:
-            return Fail('resolve:%s:ran-without-target' % cname, 'calls=%r' % calls)
-        if is_server and ret is not obj.not_handled:
-            return Fail('resolve:%s:no-target-not-reported' % cname, 'ret=%r' % (ret,))
+    def once(phase):
+        del calls[:]
+        ret = drv.call(obj._trigger_event(event, ns, *args))
+        drv.finish()
+        exp_tag, exp_args = ref_resolve(table, nstable, reserved, event, ns, args)
+        t.reached('resolved')
+        t.note(cname, event, ns, bits, unrelated, exp_tag, phase)
+        pre = 'resolve:%s%s' % (cname, phase)
+        if exp_tag is None:
+            if calls:
+                return Fail(pre + ':ran-without-target', 'calls=%r' % calls)
+            if is_server and ret is not obj.not_handled:
+                return Fail(pre + ':no-target-not-reported', 'ret=%r' % (ret,))
+            return None
+        if exp_tag in ('cls', 'clsstar'):
+            exp_name = exp_tag + ':on_' + event
+        else:
+            exp_name = exp_tag
+        if len(calls) != 1:
+            return Fail(pre + ':expected=%s:ncalls=%d:unrelated=%d' % (exp_tag, len(calls), unrelated),
+                        'event=%r ns=%r bits=%r calls=%r' % (event, ns, bits, calls))
+        if calls[0][0] != exp_name:
+            return Fail(pre + ':expected=%s:got=%s' % (exp_tag, calls[0][0]),
+                        'event=%r ns=%r bits=%r' % (event, ns, bits))
+        if not (calls[0][1] == exp_args):
+            return Fail(pre + ':args', 'expected %r got %r' % (exp_args, calls[0][1]))
+        if not (ret == 'ret-' + exp_tag):
+            return Fail(pre + ':return', 'ret=%r' % (ret,))
         return None
-    if exp_tag in ('cls', 'clsstar'):
-        exp_name = exp_tag + ':on_' + event
-    else:
-        exp_name = exp_tag
-    if len(calls) != 1:
-        return Fail('resolve:%s:expected=%s:ncalls=%d:unrelated=%d' % (cname, exp_tag, len(calls), unrelated),
-                    'event=%r ns=%r bits=%r calls=%r' % (event, ns, bits, calls))
-    if calls[0][0] != exp_name:
-        return Fail('resolve:%s:expected=%s:got=%s' % (cname, exp_tag, calls[0][0]),
-                    'event=%r ns=%r bits=%r' % (event, ns, bits))
-    if not (calls[0][1] == exp_args):
-        return Fail('resolve:%s:args' % cname, 'expected %r got %r' % (exp_args, calls[0][1]))
-    if not (ret == 'ret-' + exp_tag):
-        return Fail('resolve:%s:return' % cname, 'ret=%r' % (ret,))
-    return None
+
+    r = once('')
+    if r or 'late' not in part:
+        return r
+    # a registration made after events have flowed (a handler added or replaced at run time) counts from the next event on
+    i = part['late']
+    key = keys[i]
+    if (event == STAR and i in (0, 2)) or (ns == STAR and i in (0, 1)):
+        return None
+    with notrace():
+        table[key] = 'late%d' % i
+        obj.on(key[1], target('late%d' % i), namespace=key[0])
+    return once(':after-late-registration')
 
 
 def parts(tier):
@@ -161,6 +176,8 @@ def parts(tier):
         out.append({'cls': c, 'ev': 'disconnect', 'legacy': True})
         out.append({'cls': c, 'ev': STAR})                       # the peer names its event '*'
         out.append({'cls': c, 'ev': 'ev', 'ns': STAR})          # ... or the namespace
+        for i in range(4):
+            out.append({'cls': c, 'ev': 'ev', 'late': i})       # the event again after one more registration
     return out
 
 
@@ -171,7 +188,7 @@ META = dict(
                 'namespace classes, against a six-step reference resolution written from the property text.',
     bounds={'quick': 'all 2^6 presence combinations x unrelated-handler bit x namespace in {/,/a} x event in '
                      '{ev,message,connect,disconnect,connect_error} x sync/coroutine targets x arguments (symbolic int -3..3, optional '
-                     'symbolic str len<=2)',
+                     'symbolic str len<=2); for event ev: the same event once more after a handler was added or replaced at one of the four function-handler keys',
             'thorough': 'same (the space is exhausted in the quick tier already)'},
     outside=['event and namespace names outside the palette (which includes the name "*" for either)', 'legacy handlers other than function handlers for disconnect', 'class namespaces lacking the on_<event> method'],
     stubs=['engine.io server/client replaced by vf.stubs fakes (not exercised here)', 'asyncio -> vf.miniloop (FIFO)',
